@@ -5,30 +5,38 @@
      Gen_cover*.cfg : VIEW hides hist; ACTION_CONSTRAINT prints, for every transition of the environment's state
                       graph, the BFS path to it plus the transition
      Gen_sim.cfg    : -simulate walks of SimLen steps
+     Gen_win.cfg    : -simulate walks in which every flush window holds 2-4 deliveries (MinWin/MaxWin) over 3 keys that
+                      the driver binds to a *group* of related catalogue keys (object, activity key, ...): "sent, then
+                      edited and deactivated in one window", "removal flushed, later activated and deactivated in one window"
    The driver completes every behaviour with the catch-up suffix (deliver the truth for every key still behind,
    in-sync, flush), which is CatchUp .. FinalFlush of the environment; "write" records carry the truth for that.   *)
 EXTENDS CalcEnv, Json
 
-CONSTANT SimLen
-VARIABLES hist, sinceFlush
+CONSTANTS SimLen,
+          MinWin,     \* a flush is only taken after at least MinWin deliveries / status changes since the last one
+          MaxWin      \* 0 = unbounded; otherwise at most MaxWin of them (then only Flush or Write is possible)
+VARIABLES hist, sinceFlush      \* sinceFlush: number of deliveries since the last flush, capped
 gvars == <<truth, delivered, seen, insync, phase, writes, hist, sinceFlush>>
 
-GInit == EnvInit /\ hist = <<>> /\ sinceFlush = FALSE
+Cap == IF MaxWin > MinWin THEN MaxWin ELSE MinWin
+Bump == sinceFlush' = IF sinceFlush < Cap THEN sinceFlush + 1 ELSE sinceFlush
+Room == MaxWin = 0 \/ sinceFlush < MaxWin
+GInit == EnvInit /\ hist = <<>> /\ sinceFlush = 0
 Step(a, r) == a /\ hist' = Append(hist, r)
 Dlv(k, why) == [op |-> "deliver", k |-> k, v |-> delivered'[k], why |-> why]
 
-Flush == /\ phase = "run" /\ sinceFlush /\ UNCHANGED envVars
+Flush == /\ phase = "run" /\ sinceFlush >= MinWin /\ UNCHANGED envVars
 
 GNext ==
   \/ /\ Len(hist) = SimLen /\ hist' = Append(hist, [op |-> "end"]) /\ UNCHANGED envVars /\ UNCHANGED sinceFlush
   \/ /\ Len(hist) < SimLen
      /\ \/ \E k \in Keys, v \in Vals \cup {Nil} : Step(Write(k, v), [op |-> "write", k |-> k, v |-> v]) /\ UNCHANGED sinceFlush
-        \/ \E k \in Keys : Step(Deliver(k) /\ phase = "run", Dlv(k, "deliver")) /\ sinceFlush' = TRUE
-        \/ \E k \in Keys, v \in Vals \cup {Nil} : Step(DeliverStale(k, v), Dlv(k, "stale")) /\ sinceFlush' = TRUE
-        \/ \E k \in Keys : Step(DeliverDup(k), Dlv(k, "dup")) /\ sinceFlush' = TRUE
-        \/ \E k \in Keys : Step(SpuriousDelete(k), Dlv(k, "spurious-delete")) /\ sinceFlush' = TRUE
-        \/ Step(InSync /\ phase = "run", [op |-> "status", s |-> "in-sync"]) /\ sinceFlush' = TRUE
-        \/ Step(Flush, [op |-> "flush"]) /\ sinceFlush' = FALSE
+        \/ Room /\ \E k \in Keys : Step(Deliver(k) /\ phase = "run", Dlv(k, "deliver")) /\ Bump
+        \/ Room /\ \E k \in Keys, v \in Vals \cup {Nil} : Step(DeliverStale(k, v), Dlv(k, "stale")) /\ Bump
+        \/ Room /\ \E k \in Keys : Step(DeliverDup(k), Dlv(k, "dup")) /\ Bump
+        \/ Room /\ \E k \in Keys : Step(SpuriousDelete(k), Dlv(k, "spurious-delete")) /\ Bump
+        \/ Step(InSync /\ phase = "run", [op |-> "status", s |-> "in-sync"]) /\ Bump
+        \/ Step(Flush, [op |-> "flush"]) /\ sinceFlush' = 0
 
 GView == <<truth, delivered, seen, insync, sinceFlush>>
 EmitEdge == PrintT("BEH " \o ToJson(hist'))
